@@ -1,4 +1,102 @@
-// harnesses for the private items of the hooked module (see lib/registry.py)
+// Harnesses for geo::algorithm::simplify (property C09, Douglas-Peucker).
+// NOT REGISTERED: CBMC does not finish symbolic execution of these harnesses (timeouts at 900 s even for a 3-vertex
+// line string with a concrete tolerance): the sqrt in the distance kernel makes every distance symbolic, after which
+// the recursion runs over slices of symbolic length.  Kept as documentation of the contract that was attempted.
+// BOUNDED: polylines from a concrete menu (<= 6 vertices: zig-zag, overshoot / back-tracking, collinear,
+// repeated vertices, closed ring) with a SYMBOLIC tolerance (any finite f64 in [-1, 64]): the distance
+// computations are between constants, every comparison against the tolerance is explored.
+// The distance used in the contract is the real `Euclidean.distance(Coord, &Line)` (f64::hypot modelled as
+// sqrt(a*a+b*b)).
+use super::*;
+use crate::{Simplify, SimplifyIdx};
+use geo_types::{Coord, CoordNum, Line, LineString, Polygon};
+
+include!(concat!(env!("GEO_VERIF_DIR"), "/contracts/kani/common.rs"));
+
+#[cfg(kani)]
+fn menu_line(which: u8) -> LineString<f64> {
+    let pts: &[(f64, f64)] = match which {
+        0 => &[(0., 0.), (5., 4.), (11., 5.5), (17.3, 3.2), (27.8, 0.1)],          // the doc example
+        1 => &[(0., 0.), (20., 0.5), (10., 0.)],                                    // overshoot: vertex beyond the chord end
+        2 => &[(0., 0.), (4., 0.), (2., 0.), (6., 0.), (6., 3.)],                   // collinear back-tracking
+        3 => &[(0., 0.), (0., 0.), (3., 1.), (3., 1.), (6., 0.), (6., 0.)],         // repeated vertices
+        4 => &[(0., 0.), (4., 0.), (4., 4.), (0., 4.), (0., 0.)],                   // closed ring
+        _ => &[(0., 0.), (1., 3.), (2., 0.), (3., 3.), (4., 0.), (5., 3.)],         // zig-zag
+    };
+    let mut v = Vec::with_capacity(8);
+    let mut i = 0;
+    while i < pts.len() { v.push(Coord { x: pts[i].0, y: pts[i].1 }); i += 1; }
+    LineString(v)
+}
+
+#[cfg(kani)]
+fn any_eps() -> f64 { let e: f64 = kani::any(); kani::assume(e.is_finite() && -1.0 <= e && e <= 64.0); e }
+
+/// the contract of simplify / simplify_idx on one line string
+#[cfg(kani)]
+fn body_rdp(which: u8) {
+    let ls = menu_line(which);
+    let n = ls.0.len();
+    let eps = any_eps();
+    let idx = ls.simplify_idx(eps);
+    let out = ls.simplify(eps);
+    // the index variant lists exactly the positions of the vertices the coordinate variant keeps
+    assert!(idx.len() == out.0.len());
+    let mut k = 0;
+    while k < idx.len() {
+        assert!(idx[k] < n && out.0[k] == ls.0[idx[k]]);
+        if k > 0 { assert!(idx[k - 1] < idx[k]); }        // a subsequence, in order
+        k += 1;
+    }
+    // first and last are kept
+    assert!(idx.len() >= 2 && idx[0] == 0 && idx[idx.len() - 1] == n - 1);
+    // eps <= 0 is the identity
+    if eps <= 0.0 { assert!(idx.len() == n); }
+    // every dropped vertex lies within eps of the retained segment that replaces it
+    let mut k = 0;
+    while k + 1 < idx.len() {
+        let seg = Line::new(ls.0[idx[k]], ls.0[idx[k + 1]]);
+        let mut j = idx[k] + 1;
+        while j < idx[k + 1] {
+            assert!(Euclidean.distance(ls.0[j], &seg) <= eps);
+            j += 1;
+        }
+        k += 1;
+    }
+    kani::cover!(idx.len() < n, "something was dropped");
+}
+#[cfg(kani)] #[kani::proof] #[kani::unwind(10)] #[kani::stub(f64::hypot, hypot_model)]
+fn c09_k_rdp_doc_example() { body_rdp(0); }
+#[cfg(kani)] #[kani::proof] #[kani::unwind(10)] #[kani::stub(f64::hypot, hypot_model)]
+fn c09_k_rdp_overshoot() { body_rdp(1); }
+#[cfg(kani)] #[kani::proof] #[kani::unwind(10)] #[kani::stub(f64::hypot, hypot_model)]
+fn c09_k_rdp_backtrack() { body_rdp(2); }
+#[cfg(kani)] #[kani::proof] #[kani::unwind(10)] #[kani::stub(f64::hypot, hypot_model)]
+fn c09_k_rdp_repeated() { body_rdp(3); }
+#[cfg(kani)] #[kani::proof] #[kani::unwind(10)] #[kani::stub(f64::hypot, hypot_model)]
+fn c09_k_rdp_zigzag() { body_rdp(5); }
+
+/// polygon rings stay closed and never shrink below four coordinates (shell AND holes), for any tolerance
+#[cfg(kani)]
+#[kani::proof]
+#[kani::unwind(10)]
+#[kani::stub(f64::hypot, hypot_model)]
+fn c09_k_rdp_polygon_ring_minimum() {
+    let eps = any_eps();
+    // shell 8x8 square, hole = thin sliver triangle (apex within 0.2 of the opposite edge)
+    let mut hv = Vec::with_capacity(8);
+    hv.push(Coord { x: 2.0, y: 2.0 }); hv.push(Coord { x: 6.0, y: 2.0 }); hv.push(Coord { x: 4.0, y: 2.2 }); hv.push(Coord { x: 2.0, y: 2.0 });
+    let mut sv = Vec::with_capacity(8);
+    sv.push(Coord { x: 0.0, y: 0.0 }); sv.push(Coord { x: 8.0, y: 0.0 }); sv.push(Coord { x: 8.0, y: 8.0 }); sv.push(Coord { x: 0.0, y: 8.0 }); sv.push(Coord { x: 0.0, y: 0.0 });
+    let mut holes = Vec::with_capacity(1); holes.push(LineString(hv));
+    let p = Polygon::new(LineString(sv), holes);
+    let q = p.simplify(eps);
+    assert!(q.interiors().len() == 1);
+    assert!(q.exterior().0.len() >= 4 && q.exterior().0[0] == q.exterior().0[q.exterior().0.len() - 1]);
+    assert!(q.interiors()[0].0.len() >= 4 && q.interiors()[0].0[0] == q.interiors()[0].0[q.interiors()[0].0.len() - 1]);
+    kani::cover!(eps > 1.0, "tolerance larger than the sliver");
+}
 
 #[cfg(kani)]
 include!(concat!(env!("GEO_VERIF_DIR"), "/.work/playback/pb_c09_rdp.rs"));
+
